@@ -19,6 +19,7 @@ import (
 	"io"
 	"net/http"
 	"os"
+	"path/filepath"
 	"strings"
 	"testing"
 )
@@ -290,6 +291,19 @@ func vaRun(c *vaCmd) (res map[string]any) {
 		if err := cl.DeleteClusterLogs(context.Background(), c.Files); err != nil {
 			res["err"] = err.Error()
 		}
+	case "tmpdir_list":
+		// recursive listing of the process's temporary directory (relative names)
+		root := os.TempDir()
+		var names []string
+		filepath.WalkDir(root, func(p string, d os.DirEntry, err error) error {
+			if err == nil && p != root {
+				rel, _ := filepath.Rel(root, p)
+				names = append(names, rel)
+			}
+			return nil
+		})
+		res["tmpdir"] = root
+		res["names"] = names
 	case "hosts":
 		outs := make([]any, len(c.Names))
 		for i, n := range c.Names {
